@@ -453,7 +453,7 @@ def run_shard(ctx: Ctx, rec: Recorder) -> None:
         for i, case in enumerate(grid_cases()):
             if not ctx.mine(i):
                 continue
-            if ctx.quick and (i // ctx.nshards) % 3:
+            if ctx.quick and ctx.skip(i, 3):
                 continue
             rec.case(case)
             run_case(rec, case, certs)
